@@ -92,7 +92,8 @@ def enum(e):
                 for q in enum(els):
                     out.append(Path(p.events + q.events, p.conds + [("letelse", e, False)] + q.conds, q.out, q.value))
             return out
-        return [Path(p.events + ([{"ev": "let", "n": e}] if p.out == "fall" else []), p.conds, p.out,
+        return [Path(p.events + ([{"ev": "let", "n": e}] if p.out == "fall" else []),
+                     p.conds + ([("let", e)] if p.out == "fall" else []), p.out,
                      None if p.out == "fall" else p.value) for p in ps]
     if k == "if":
         cps = enum(e["cond"])
